@@ -389,8 +389,12 @@ func (vm *Type) Run(retResult bool) (value.Type, error) {
 
 			nip := m.IP()
 			if nip == nil {
+				// top level return: the statement ends here; its value stays on
+				// the stack only if the caller of Run takes it
 				m.ResetSP()
-				m.Push(val)
+				if retResult {
+					m.Push(val)
+				}
 				ip = len(*cs) - 1
 				break
 			}
